@@ -21,26 +21,26 @@ package common
 
 //@ func (*BitArray).getIndex
 //@   props C08 C15 C17
-//@   requires wfBA(bA) && i >= 0
+//@   requires wfBA(bA)
 //@   assigns  nothing
 
 //@ func (*BitArray).setIndex
 //@   props C08 C15 C17
-//@   requires wfBA(bA) && i >= 0
+//@   requires wfBA(bA)
 //@   assigns  bA.Elems[*]
-//@   ensures  result == (i < bA.Bits)
+//@   ensures  result == (0 <= i && i < bA.Bits)
 //@   ensures  wfBA(bA)
 
 //@ func (*BitArray).GetIndex
 //@   props C08 C15 C17
-//@   requires bA == nil || (wfBA(bA) && i >= 0)
+//@   requires wfBAorNil(bA)
 //@   assigns  bA.mtx.*
 
 //@ func (*BitArray).SetIndex
 //@   props C08 C15 C17
-//@   requires bA == nil || (wfBA(bA) && i >= 0)
+//@   requires wfBAorNil(bA)
 //@   assigns  bA.Elems[*], bA.mtx.*
-//@   ensures  result == (bA != nil && i < bA.Bits)
+//@   ensures  result == (bA != nil && 0 <= i && i < bA.Bits)
 //@   ensures  bA != nil ==> wfBA(bA)
 
 //@ func PanicSanity
